@@ -25,7 +25,7 @@ XU  == IF Wide THEN {X4, X3, X5} ELSE {X4, X3}
 \* (the differences between any two knots of a vector of XU are 2^k, 3 * 2^k or 9 * 2^k and the values multiples
 \* of 9 / 4, so that binary floating point computes every chord without rounding - the law itself is exact anyway)
 YV  == IF Wide THEN {NaNC, Q(0, 1), Q(9, 1), Q(-9, 2), Q(27, 4)} ELSE {NaNC, Q(0, 1), Q(9, 1), Q(-9, 2)}
-AV  == {NaNC} \cup {Q(k, 2) : k \in (IF Wide THEN -5..13 ELSE -3..10)}
+AV  == {NaNC} \cup {Q(k, 2) : k \in (IF Wide THEN -5..13 ELSE -2..8)}
 AVseq == <<NaNC>> \o [i \in 1..19 |-> Q(i - 6, 2)]
 
 YR3  == [1..3 -> {NaNC, Q(0, 1), Q(3, 1)}]
